@@ -553,7 +553,10 @@ impl<F: MatchFunc> Aligner<F> {
                 self.I[curr][i] = MIN_SCORE;
                 self.D[curr][i] = MIN_SCORE;
             }
-            self.S[curr][m] = MIN_SCORE;
+            // (with an empty x, cell m is the cell i = 0 that was just computed)
+            if m > 0 {
+                self.S[curr][m] = MIN_SCORE;
+            }
 
             let q = y[j - 1];
             let xclip_score = self.scoring.xclip_prefix
